@@ -201,18 +201,29 @@ class Ctx:
         while pending or running:
             while pending and len(running) < NPROC:
                 name, text = pending.pop(0)
-                path = os.path.join(CASES, name + '.v')
+                uname = f'{name}_p{os.getpid()}'       # process-unique: concurrent checks never share a case file
+                path = os.path.join(CASES, uname + '.v')
                 with open(path, 'w') as f:
                     f.write(text)
-                outf = open(os.path.join(CASES, name + '.out'), 'w')
-                p = subprocess.Popen(['timeout', str(timeout), 'coqc', '-w', '-all', '-Q', '.', 'VQ', os.path.join('Cases', name + '.v')],
+                outf = open(os.path.join(CASES, uname + '.out'), 'w')
+                p = subprocess.Popen(['timeout', str(timeout), 'coqc', '-w', '-all', '-Q', '.', 'VQ', os.path.join('Cases', uname + '.v')],
                                      cwd=COQ, stdout=outf, stderr=subprocess.STDOUT, text=True)
                 outf.close()
                 running.append((name, p))
             for name, p in list(running):
                 if p.poll() is not None:
-                    with open(os.path.join(CASES, name + '.out')) as fo:
+                    uname = f'{name}_p{os.getpid()}'
+                    with open(os.path.join(CASES, uname + '.out')) as fo:
                         results[name] = (p.returncode, fo.read(2_000_000))
+                    for ext in ('.vo', '.glob', '.vok', '.vos', '.out') + (('.v',) if p.returncode == 0 else ()):
+                        try:
+                            os.remove(os.path.join(CASES, uname + ext))
+                        except OSError:
+                            pass
+                        try:
+                            os.remove(os.path.join(CASES, '.' + uname + '.aux'))
+                        except OSError:
+                            pass
                     running.remove((name, p))
             time.sleep(0.02)
         self.case_files += len(files)
